@@ -63,15 +63,21 @@ Fixpoint dedup (l : list N) : list N :=
 
 Definition fetch_code (f : fetched) (p : N) : N := match f with FPlain q => if N.eqb q p then 1 else 3 | FMissing => 0 | FFail => 2 end%N.
 
+Definition hrun_from (o : option st) (hs : list hop) : option st :=
+  match o with Some s => hrun s hs | None => None end.
+
 Inductive c11_case :=
-(* after the operations: does the store start (false = the last restart failed), the decrypted views of the wrapped
-   stores, the enumerated plaintext refs, and for some blobs the class of Fetch's answer (0 missing, 1 exact, 2 error) *)
-| CRun (hs : list hop) (precise : bool) (started : bool) (obs_meta : list (list N)) (obs_blobs obs_index : list N) (fetches : list (N * N)).
+(* from a state reached earlier (a prefix of the history, evaluated once per case file) and after the further operations:
+   does the store start (false = the last restart failed), the decrypted views of the wrapped stores, the enumerated
+   plaintext refs, and for some blobs the class of Fetch's answer (0 missing, 1 exact, 2 error) *)
+| CFrom (s0 : option st) (hs : list hop) (precise : bool) (started : bool) (obs_meta : list (list N)) (obs_blobs obs_index : list N) (fetches : list (N * N)).
+
+Definition CRun (hs : list hop) := CFrom (Some init) hs.
 
 Definition check (k : c11_case) : bool :=
   match k with
-  | CRun hs precise started obs_meta obs_blobs obs_index fetches =>
-      match hrun init hs with
+  | CFrom s0 hs precise started obs_meta obs_blobs obs_index fetches =>
+      match hrun_from s0 hs with
       | None => negb started
       | Some s =>
           (* after a start-up that compacted, how the meta blobs were grouped depends on the order in which the pool of
